@@ -39,9 +39,13 @@ type MultiScenario struct {
 }
 
 type C18Scenario struct {
-	Mode  string         `json:"mode"` // term | multi
+	Mode  string         `json:"mode"` // term | multi | ssh
 	Sync  *SyncScenario  `json:"sync,omitempty"`
 	Multi *MultiScenario `json:"multi,omitempty"`
+	// SSH (mode ssh): sessions against the daemon's anonymous SSH listener,
+	// some of them peers that connect and stay silent; every other session
+	// must be served as if it were alone.
+	SSH *C20Scenario `json:"ssh,omitempty"`
 	// LitFlip > 0 (term mode): one literal data byte (the LitFlip-th, modulo
 	// the number available, located by decoding a fault-free run) is damaged in
 	// flight, so that the receiver detects a checksum mismatch in mid-session:
@@ -60,6 +64,18 @@ var c18Caps = []int{0, 1, 7, 64, 65536, kernel.Unbounded}
 func (c18) Generate(seed uint64, tier string, index int) any {
 	g := NewGen(kernel.Derive(seed, "workload"), tier == "thorough")
 	race := os.Getenv("VERIF_RACE") != ""
+	if !race && g.R.Intn(15) == 0 {
+		ssh := &C20Scenario{Mode: "anon", Keys: []C20Key{{Type: c20KeyTypes[g.R.Intn(len(c20KeyTypes))]}}}
+		nd := 2 + g.R.Intn(3)
+		for i := 0; i < nd; i++ {
+			for g.R.Intn(2) == 0 {
+				ssh.Sessions = append(ssh.Sessions, C20Session{Op: "silent"})
+			}
+			ssh.Sessions = append(ssh.Sessions, C20Session{Op: "daemon", Cmd: c20DaemonCmds[g.R.Intn(len(c20DaemonCmds))]})
+		}
+		ssh.Tr = Transport{CapCS: kernel.Unbounded, CapSC: kernel.Unbounded, Chunk: g.R.Intn(4), Bias: g.R.Intn(2), SchedSeed: g.R.Uint64() >> 1}
+		return &C18Scenario{Mode: "ssh", SSH: ssh}
+	}
 	if race || g.R.Intn(3) == 0 {
 		ms := &MultiScenario{Free: race}
 		ms.Src = g.Tree(TreeOpts{MaxEntries: 8, ByteBudget: 600 << 10, PlainNames: true, Symlinks: true, FixedPerms: false})
@@ -262,6 +278,35 @@ func (c18) Run(t *testing.T, scenario any, job *Job, res *Result) {
 		res.NonTrivial = s.Stats.Steps > 50 || sc.Sync.Arr == "A4"
 		res.Sample = map[string]any{"mode": "term", "arr": sc.Sync.Arr, "cap": []int{sc.Sync.Tr.CapCS, sc.Sync.Tr.CapSC}, "chunk": sc.Sync.Tr.Chunk,
 			"bias": sc.Sync.Tr.Bias, "faults": sc.Sync.Faults, "src_entries": len(sc.Sync.Src.Entries), "bytes": treeBytes(&sc.Sync.Src), "steps": s.Stats.Steps, "outcome": s.Outcome.String()}
+	case "ssh":
+		if sc.SSH == nil || sc.SSH.Mode != "anon" {
+			res.Invalid = "ssh scenario"
+			return
+		}
+		nsilent := 0
+		for _, x := range sc.SSH.Sessions {
+			switch x.Op {
+			case "silent":
+				nsilent++
+			case "daemon":
+			default:
+				res.Invalid = "ssh mode runs daemon invocations and silent peers only"
+				return
+			}
+		}
+		// (C20's workers run with this set: the daemon then takes the listeners
+		// it is handed instead of resolving and binding the configured address)
+		os.Setenv("GOKRAZY_RSYNC_PRIVDROP", "1")
+		c20{}.Run(t, sc.SSH, job, res)
+		os.Unsetenv("GOKRAZY_RSYNC_PRIVDROP")
+		if res.Violation != nil {
+			res.Violation.Signature = "ssh-session-not-served:" + res.Violation.Kind + ":" + res.Violation.Signature
+			res.Violation.Kind = "interference"
+			res.Violation.Detail = fmt.Sprintf("with %d silent peers connected to the SSH listener: %s", nsilent, res.Violation.Detail)
+		}
+		res.Probe("ssh_runs", 1)
+		res.Probe("ssh_silent_peers", nsilent)
+		res.Sample = map[string]any{"mode": "ssh", "sessions": len(sc.SSH.Sessions), "silent": nsilent}
 	case "multi":
 		if sc.Multi == nil || len(sc.Multi.Sessions) == 0 {
 			res.Invalid = "no sessions"
